@@ -11,9 +11,25 @@ namespace Gonnx.C16
 open Gonnx
 variable {α β γ : Type} [Inhabited α] [Inhabited β] [Inhabited γ]
 
+-- concrete instance shared by the non-vacuity examples below: two batches (2 and 3 samples of 3 features)
+-- that share a sample (row 1 of `nv_X` is row 0 of `nv_X2`), and a 3×2 weight
+private def nv_A : Arith Int := ⟨0, (· + ·), (· * ·), (· - ·)⟩
+private def nv_X : Tensor Int := ⟨[2, 3], [1, 2, 3, 4, 5, 6]⟩
+private def nv_X2 : Tensor Int := ⟨[3, 3], [4, 5, 6, 0, 0, 0, 7, 8, 9]⟩
+private def nv_W : Tensor Int := ⟨[3, 2], [1, 0, 0, 1, 1, 1]⟩
+private theorem nv_goodX : Good nv_X := And.intro rfl (by decide)
+private theorem nv_goodX2 : Good nv_X2 := And.intro rfl (by decide)
+private theorem nv_goodW : Good nv_W := And.intro rfl (by decide)
+
 /-- two dense tensors with the same shape and the same element at every index are the same tensor -/
 theorem tensor_ext (a b : Tensor α) (h : Proofs.Equiv a b) : a = b :=
   Proofs.Batch.tensor_ext a b h
+
+-- non-vacuity: a literal 2×3 tensor and the same tensor given by its index formula
+example : nv_X = ofFn [2, 3] (fun idx => ((idx.getD 0 0 * 3 + idx.getD 1 0 + 1 : Nat) : Int)) :=
+  tensor_ext _ _ ⟨rfl, rfl, ofFn_WF _ _, fun idx h =>
+    (by decide : ∀ idx ∈ allIdx [2, 3], nv_X.get idx = (ofFn [2, 3] (fun idx => ((idx.getD 0 0 * 3 + idx.getD 1 0 + 1 : Nat) : Int))).get idx)
+      idx (mem_allIdx.2 h)⟩
 
 -- `hax`, `hn` are part of the fixed signature although the proof does not need them
 set_option linter.unusedVariables false in
@@ -22,6 +38,10 @@ theorem takeBatch_good (ax n : Nat) (t : Tensor α) (hg : Good t) (hax : ax < t.
     Good (takeBatch ax n t) ∧ (takeBatch ax n t).shape = t.shape.set ax 1 :=
   Proofs.Batch.takeBatch_good ax n t hg
 
+-- non-vacuity: sample 1 of the batch of two
+example : Good (takeBatch 0 1 nv_X) ∧ (takeBatch 0 1 nv_X).shape = nv_X.shape.set 0 1 :=
+  takeBatch_good 0 1 nv_X nv_goodX (by decide) (by decide)
+
 -- `hg`, `hax`, `hn` are part of the fixed signature although the proof does not need them
 set_option linter.unusedVariables false in
 /-- a sample of a sample is that sample -/
@@ -29,11 +49,20 @@ theorem takeBatch_idem (ax n : Nat) (t : Tensor α) (hg : Good t) (hax : ax < t.
     takeBatch ax 0 (takeBatch ax n t) = takeBatch ax n t :=
   Proofs.Batch.takeBatch_idem ax n t
 
+-- non-vacuity: position 2 along axis 1
+example : takeBatch 1 0 (takeBatch 1 2 nv_X) = takeBatch 1 2 nv_X :=
+  takeBatch_idem 1 2 nv_X nv_goodX (by decide) (by decide)
+
 /-- **Composition**: per-sample operators compose to a per-sample model (a chain of nodes) -/
 theorem compose (ax ax' ax'' : Nat) (f : Tensor α → Res (Tensor β)) (g : Tensor β → Res (Tensor γ))
     (hf : BatchPointwise ax ax' f) (hg : BatchPointwise ax' ax'' g) :
     BatchPointwise ax ax'' (fun X => match f X with | .ok Y => g Y | .error e => .error e) :=
   Proofs.Batch.compose ax ax' ax'' f g hf hg
+
+-- non-vacuity: "double every element" followed by MatMul against the 3×2 weight; both premises are proved facts
+example : BatchPointwise 0 0 (fun X => match (.ok (unaryOp (fun v : Int => 2 * v) X) : Res (Tensor Int)) with
+      | .ok Y => mm2 nv_A Y nv_W | .error e => .error e) :=
+  compose 0 0 0 _ _ (Proofs.Batch.unary_pointwise 0 (fun v : Int => 2 * v)) (Proofs.Batch.matmul_weight_pointwise nv_A nv_W nv_goodW)
 
 /-- every elementwise / activation operator is per-sample along any axis -/
 theorem unary_pointwise (ax : Nat) (f : α → β) :
@@ -45,6 +74,9 @@ theorem matmul_weight_pointwise (A : Arith α) (W : Tensor α) (hW : Good W) :
     BatchPointwise 0 0 (fun X => mm2 A X W) :=
   Proofs.Batch.matmul_weight_pointwise A W hW
 
+-- non-vacuity: the 3×2 weight is dense with positive extents
+example : BatchPointwise 0 0 (fun X => mm2 nv_A X nv_W) := matmul_weight_pointwise nv_A nv_W nv_goodW
+
 /-- consequence of the definition: permuting or sub-selecting the batch permutes / sub-selects the
 results — stated for two samples: the result for sample `n` does not depend on which batch it is in -/
 theorem independent_of_batch (ax ax' : Nat) (f : Tensor α → Res (Tensor β)) (hf : BatchPointwise ax ax' f)
@@ -55,5 +87,12 @@ theorem independent_of_batch (ax ax' : Nat) (f : Tensor α → Res (Tensor β)) 
     (hsame : takeBatch ax n B1 = takeBatch ax m B2) :
     takeBatch ax' n R1 = takeBatch ax' m R2 :=
   Proofs.Batch.independent_of_batch ax ax' f hf B1 B2 R1 R2 n m hg1 hg2 ha1 ha2 hn hm h1 h2 hsame
+
+-- non-vacuity: MatMul against the weight on a batch of 2 and on a batch of 3 that share a sample; all nine
+-- hypotheses (including `BatchPointwise` of the operator and success on both batches) hold
+example : takeBatch 0 1 (⟨[2, 2], [4, 5, 10, 11]⟩ : Tensor Int) = takeBatch 0 0 (⟨[3, 2], [10, 11, 0, 0, 16, 17]⟩ : Tensor Int) :=
+  independent_of_batch 0 0 (fun X => mm2 nv_A X nv_W) (matmul_weight_pointwise nv_A nv_W nv_goodW)
+    nv_X nv_X2 ⟨[2, 2], [4, 5, 10, 11]⟩ ⟨[3, 2], [10, 11, 0, 0, 16, 17]⟩ 1 0 nv_goodX nv_goodX2
+    (by decide) (by decide) (by decide) (by decide) (by decide) (by decide) (by decide)
 
 end Gonnx.C16
